@@ -67,14 +67,15 @@ def pickOrigin (oref : Option Int) (dflt : Option Int) : Option Int :=
 
 def copyNumber (w : World) (k : Key) (name : PStr) : Nat := (itemsOfKey w k).countP (fun it => it.name = name)
 
+def appendItem (w : World) (it : Item) : World := { w with items := w.items ++ [it] }
+
 /-- `LogicalFile.add_<kind>` for every kind except ORIGIN -/
 def addItem (w : World) (lf kind : Nat) (sn : Option PStr) (name : PStr) (oref : Option Int) (out : Outcome) : World :=
   let w1 := touchKey w lf (kind, sn)
   match out with
   | .ok =>
-    { w1 with items := w1.items ++ [{ lf := lf, kind := kind, setName := sn, name := name,
-                                       origin := pickOrigin oref (defaultOrigin w1 lf),
-                                       copy := copyNumber w (kind, sn) name }] }
+    appendItem w1 { lf := lf, kind := kind, setName := sn, name := name,
+                    origin := pickOrigin oref (defaultOrigin w1 lf), copy := copyNumber w (kind, sn) name }
   | _ => w1       -- the set exists (empty sets are never written); a registered item is unregistered again
 
 def nextFree (refs : List Int) : Nat → Int → Int
@@ -90,6 +91,13 @@ def newOriginRef (origins : List Item) (oref : Option Int) : Except Err Int :=
     else .ok (nextFree refs (refs.length + 1) origins.length)
   | none => .ok (nextFree refs (refs.length + 1) origins.length)
 
+/-- first origin of a logical file: objects of this logical file created before it get its reference, and so
+does the file header -/
+def backfill (w : World) (lf : Nat) (r : Int) : World :=
+  { w with items := w.items.map (fun i =>
+              if i.origin.isNone ∧ i.key ∈ lfKeys w lf then { i with origin := some r } else i),
+           headerOrigin := w.headerOrigin.set lf (some r) }
+
 /-- `LogicalFile.add_origin` -/
 def addOrigin (w : World) (lf : Nat) (sn : Option PStr) (name : PStr) (oref : Option Int) (out : Outcome) :
     World × Bool :=
@@ -99,15 +107,9 @@ def addOrigin (w : World) (lf : Nat) (sn : Option PStr) (name : PStr) (oref : Op
   | .ok r =>
     match out with
     | .ok =>
-      let it : Item := { lf := lf, kind := 0, setName := sn, name := name, origin := some r,
-                         copy := copyNumber w (0, sn) name }
-      let w2 := { w1 with items := w1.items ++ [it] }
-      if (originsOfLf w2 lf).length = 1 then
-        -- first origin of the logical file: objects of this logical file created before it get its reference
-        ({ w2 with items := w2.items.map (fun i =>
-              if i.origin.isNone ∧ i.key ∈ lfKeys w2 lf then { i with origin := some r } else i),
-                   headerOrigin := w2.headerOrigin.set lf (some r) }, true)
-      else (w2, true)
+      let w2 := appendItem w1 { lf := lf, kind := 0, setName := sn, name := name, origin := some r,
+                                copy := copyNumber w (0, sn) name }
+      (if (originsOfLf w2 lf).length = 1 then backfill w2 lf r else w2, true)
     | _ => (w1, false)
 
 inductive Op
